@@ -1087,14 +1087,21 @@ func (c *Case) genStruct(t *rapid.T, depth int, label string) *Node {
 			} else {
 				s = c.poolStruct(t)
 			}
-			switch rapid.IntRange(0, 2).Draw(t, fl+".form") {
+			switch rapid.IntRange(0, 4).Draw(t, fl+".form") {
 			case 0:
 				f.N = s
 			case 1:
 				f.N = &Node{Kind: KPtr, T: reflect.PointerTo(s.T), Elem: s}
-			default:
+			case 2:
 				f.N = &Node{Kind: KPtr, T: reflect.PointerTo(s.T), Elem: s}
 				f.Optional = true
+			case 3:
+				// inlined: the keys of the member (and of what is inlined into it in turn) live in the map of the parent
+				f.N = s
+				f.Inlined = true
+			default:
+				f.N = &Node{Kind: KPtr, T: reflect.PointerTo(s.T), Elem: s}
+				f.Inlined, f.Optional = true, true
 			}
 		case 13:
 			if rapid.Bool().Draw(t, fl+".addr") {
